@@ -83,9 +83,21 @@ def run(ctx):
         if enc == "utf-8" and i % 3 == 0:
             # letters whose case folding differs from their lower case but whose case mapping is one-to-one
             # (Cherokee small letters), Greek and Cyrillic with capitals, a word with a final sigma (outside the domain)
-            extra = ctx.rng.sample(["ꭰꭱꭲꭳ1", "ꭰꭱꭲꭳꭴꭵ", "Ꭰꭱꭲꭳ", "Ωμέγα7", "κόσμος", "Привет1", "ÀÉÎõü", "ǆabc"], 4)
+            # ... and capitals whose TITLE case differs from their upper case (Georgian Mtavruli, the dz/lj/nj digraphs)
+            extra = ctx.rng.sample(["ꭰꭱꭲꭳ1", "ꭰꭱꭲꭳꭴꭵ", "Ꭰꭱꭲꭳ", "Ωμέγα7", "κόσμος", "Привет1", "ÀÉÎõü", "ǆabc",
+                                    "\u1c90\u10d1\u10d212", "\u01c4abc", "\u01c7ubav9", "\u1c90\u1c91\u10d2", "\u01f1eta"], 5)
             for x in extra:
                 passwords += [x] * ctx.rng.choice([1, 2, 5])
+        if i % 4 == 1:
+            # a history inside ONE training run: base words seen often enough to split multi-words, a three-word
+            # password, and afterwards passwords that are (or end in) its two-word tail
+            ws = ctx.rng.sample(["lamp", "table", "chair", "horse", "staple", "battery", "correct", "purple", "monkey", "wizard"], 3)
+            hist = []
+            for w in ws:
+                hist += [w] * 5
+            hist += ["".join(ws), ws[1] + ws[2], ws[0].capitalize() + ws[1] + ws[2] + "1", ws[1] + ws[2], "happy" + ws[1] + ws[2]]
+            passwords = passwords[:len(passwords) // 2] + hist + passwords[len(passwords) // 2:]
+            dist["multiword_histories"] = dist.get("multiword_histories", 0) + 1
         if not passwords:
             continue
         fn = os.path.join(sc, "train_%d.txt" % i)
@@ -192,7 +204,8 @@ def run(ctx):
         else:
             corr.append(("mask-roundtrip:" + name, True, ""))
     rule = ("generated training lists (words, capitalised words, multi-words, digits, years, symbols, keyboard walks, context strings, "
-            "spaces, Latin-1 / Cyrillic letters, e-mails, websites, duplicates) in utf-8 / latin-1 / cp1251, coverage 0.3 / 0.6 / 1, n-gram 2-4; "
+            "spaces, Latin-1 / Cyrillic / Cherokee / Georgian letters and digraphs with a separate title case, three-word passwords followed by "
+            "their two-word tails, e-mails, websites, duplicates) in utf-8 / latin-1 / cp1251, coverage 0.3 / 0.6 / 1, n-gram 2-4; "
             "real trainer.py subprocess, real guesser with skip_brute run to exhaustion, whole language enumerated; every supported training "
             "password must be in it and the probabilities must sum to 1 (1e-9); non-trivial = password with >= 2 segments, capitals or "
             "non-ASCII; distinct by (password, encoding)")
